@@ -113,7 +113,7 @@ func drawC08(t *rapid.T) caseC08 {
 		// pending in the look-ahead) followed by more than 2 MiB of highly
 		// compressible data (the 2 MiB uncompressed limit of the next chunk)
 		rnd := func() gen.Seg {
-			return gen.Seg{Kind: "random", Len: rapid.IntRange(66000, 140000).Draw(t, "bwrnd"), K: rapid.SampledFrom([]int{0, 0, 0, 226, 230, 234, 240, 248, 252, 255}).Draw(t, "alphabet"), Seed: rapid.Uint64().Draw(t, "bwseed")}
+			return gen.Seg{Kind: "random", Len: rapid.IntRange(66000, 140000).Draw(t, "bwrnd"), K: rapid.SampledFrom([]int{0, 0, 0, 230, 232, 234, 236, 238, 240, 242, 246, 252}).Draw(t, "alphabet"), Seed: rapid.Uint64().Draw(t, "bwseed")}
 		}
 		run := func() gen.Seg {
 			return gen.Seg{Kind: "run", B: rapid.Byte().Draw(t, "bwbyte"), Len: rapid.IntRange(2097152-70000, 2097152+150000).Draw(t, "bwrun")}
